@@ -181,28 +181,46 @@ def _s9(day):
     return zd, day, ["db", "reindex"]
 
 
+def _s11(day):
+    """`db create` over an EXISTING index (a rebuild: the old database file is deleted first) with
+    more ZID-less notes on the day whose ZIDs the first run handed out: whatever the rebuild
+    forgets, it must not forget which ZIDs are taken."""
+    files = {
+        "a.zo": "# A\n\n- first note of the day\no second note of the day\n",
+        "b.zo": "# B\n\n- third note of the day\n",
+    }
+    zd = Z.make_zdir(files, "c13b")
+    r = Z.db_create(zd, day)
+    if not Z.cli_ok(r):
+        raise H.HarnessError("S11 setup failed " + r.err[-300:])
+    (zd / "a.zo").write_text((zd / "a.zo").read_text() + "- fourth, added before the rebuild\n")
+    (zd / "b.zo").write_text((zd / "b.zo").read_text() + "o fifth, added before the rebuild\n")
+    return zd, day, ["db", "create"]
+
+
 SCENARIOS = {"S1-create-new-notes": _s1, "S2-reindex-stamp-new-note-new-page": _s2,
              "S3-reindex-shared-tag": _s3, "S4-create-f-whitelist": _s4,
              "S5-reindex-without-write-back": _s5, "S6-reindex-page-with-properties-and-single-use-tags": _s6,
              "S7-reindex-renamed-page-and-moved-note": _s7, "S8-reindex-repaired-whitelisted-page": _s8,
              "S9-reindex-more-new-notes-on-a-day-that-already-has-zids": _s9,
-             "S10-reindex-repaired-whitelisted-page-without-write-back": _s10}
+             "S10-reindex-repaired-whitelisted-page-without-write-back": _s10,
+             "S11-create-over-an-existing-index-with-more-new-notes": _s11}
 
 
 # ---------------------------------------------------------------------------
-def _instrumented(zdir_s: str, argv_tail, crash_at, torn):
-    rec = IP.Recorder(crash_at=crash_at, torn=tuple(torn) if torn else None, root=zdir_s)
+def _instrumented(zdir_s: str, argv_tail, crash_at, torn, crash_after=None):
+    rec = IP.Recorder(crash_at=crash_at, torn=tuple(torn) if torn else None, root=zdir_s, crash_after=crash_after)
     IP.install(rec)
     cfg = Path(zdir_s).parent / "org.cfg.yml"
     code = H._cli_entry(["zorg", "-c", str(cfg), "--dir", zdir_s, *argv_tail])
     return {"exit": code, "effects": rec.effects}
 
 
-def run_cmd(zd: Path, day, argv_tail, crash_at=None, torn=None) -> H.ChildResult:
+def run_cmd(zd: Path, day, argv_tail, crash_at=None, torn=None, crash_after=None) -> H.ChildResult:
     cfg = zd.parent / "org.cfg.yml"
     if not cfg.exists():
         H.write_config(cfg)
-    return H.run_child(_instrumented, str(zd), list(argv_tail), crash_at, torn, day=day)
+    return H.run_child(_instrumented, str(zd), list(argv_tail), crash_at, torn, crash_after, day=day)
 
 
 def user_text(files: dict[str, str]) -> Counter:
@@ -365,7 +383,11 @@ def _run_case(ctx, case) -> F.Outcome:
         day, argv = sc["day"], sc["argv"]
         states = []
         for (k, torn) in crashes:
-            r = run_cmd(zd, day, argv, crash_at=None if torn is not None else k, torn=(k, torn) if torn is not None else None)
+            if torn == "after":
+                r = run_cmd(zd, day, argv, crash_after=k)
+            else:
+                r = run_cmd(zd, day, argv, crash_at=None if torn is not None else k,
+                            torn=(k, torn) if torn is not None else None)
             if r.status == "ok":
                 # the run had fewer than k effects (possible during a recovery
                 # run that needs less work): it simply completed
@@ -410,7 +432,8 @@ def _where(sc, crashes) -> str:
     tgt = e[1]
     tgt = re.sub(r"[\w/]+\.zo\b", "*.zo", tgt)
     tgt = re.sub(r"\d+", "N", tgt)  # e.g. a process id embedded in a scratch-file name
-    return f"{'torn' if torn is not None else 'before'}-{e[0]}-{tgt}" + ("+second-crash" if len(crashes) > 1 else "")
+    how = "after" if torn == "after" else ("torn" if torn is not None else "before")
+    return f"{how}-{e[0]}-{tgt}" + ("+second-crash" if len(crashes) > 1 else "")
 
 
 def _cases(ctx):
@@ -421,6 +444,10 @@ def _cases(ctx):
         cases.append([name, "uninterrupted"])
         for k in range(1, n + 1):
             cases.append([name, [[k, None]]])
+        # ... and the moment effect k's call has returned (nothing that Python code after it
+        # would still do -- flushing an open file, creating the database file -- has happened)
+        for k in range(1, n + 1):
+            cases.append([name, [[k, "after"]]])
         if not ctx.quick:
             for k, (kind, tgt) in enumerate(sc["effects"], start=1):
                 if kind.startswith(("write_text", "open(")):
@@ -453,7 +480,7 @@ def run(ctx: F.Ctx):
         _SC.clear()
     meta = {
         "rule": (
-            "10 scenarios (db create with three ZID-less notes on two pages; db reindex a day later "
+            "11 scenarios (db create with three ZID-less notes on two pages; db create over an existing index (the old database file is deleted first) with more ZID-less notes of the same day; db reindex a day later "
             "with an edited note, a new note, a new page, a new page in a sub-directory and an untouched page; db reindex with two "
             "changed pages sharing a tag whose other holder dropped it; db create -f with a broken "
             "page; db reindex after changes that need no write-back: a new page whose notes carry "
@@ -462,7 +489,7 @@ def run(ctx: F.Ctx):
             "and pasted with its ZID into an earlier-sorted page; db reindex after a whitelisted broken page was repaired; db reindex with more ZID-less notes on the day "
             "whose ZIDs an earlier run already handed out). Effects intercepted in program order: Path.write_text, Path.open(w), touch, "
             "unlink, rename, Session.commit. For every k in 1..N the command is killed (os._exit) "
-            "immediately before effect k, then re-run to completion and judged: exits cleanly, raw "
+            "immediately before effect k, and again the moment effect k's call has returned (nothing still buffered in an open file reaches the disk), then re-run to completion and judged: exits cleanly, raw "
             "index == recompiled files, every note has a ZID, no ZID on two notes, the multiset of "
             "user text is unchanged, and files/index/meta equal the uninterrupted run up to renaming "
             "of freshly allocated ZIDs. Thorough adds a torn (0% and 50%) variant of every file "
